@@ -37,7 +37,7 @@ PROPS = {
         "assumptions": ["arguments are live handles"],
     },
     "C11": {
-        "suites": [("forest", 300, 6000)],
+        "suites": [("fmap", 150, 1000), ("forest", 300, 6000)],
         "proved_scope": "updating an existing key keeps every node and handle in place; removing an absent key is the identity; element-only accessors panic without change on non-elements. Agreement of the read-only and the mutable view is checked on the implementation after every step (both Rust copies against the model's single definition)",
         "not_proved": "refinement of insert/remove/clear/insert_node to an insertion-ordered association list (C11_refine) and C11_order",
         "modelled": EXTERNAL,
